@@ -1558,7 +1558,7 @@ class System:
                 src_cnt += 1
             ndomain[n] = dname
             ph_names = []
-            if tname == "SLOSS":
+            if tname == "SLOSS" or tname == "RECTIFIER":
                 ph_names += ["N/A"]
             elif (
                 tname == "CONVERTER"
